@@ -5,6 +5,7 @@ package log
 import (
 	"fmt"
 	"os"
+	"path/filepath"
 	"runtime"
 	"strings"
 	"sync"
@@ -73,4 +74,22 @@ func verifShortStack() string {
 		}
 	}
 	return "  read by: " + strings.Join(out, " < ")
+}
+
+// VerifSetPointHook lets the raft harness (E-SIM) see the structural storage
+// points inside the log package - segment creation, roll-over, removal,
+// truncation, reset - as crash points of the node that owns the directory.
+// Append and flush points are left out: the raft-level points log.appended /
+// log.flushed stand for them and E-LOG enumerates them at the package level.
+func VerifSetPointHook(fn func(name, dir string)) {
+	verifHooks.point = func(name string, s *segment) {
+		if strings.HasPrefix(name, "append.") || strings.HasPrefix(name, "sync.") {
+			return
+		}
+		if s == nil || s.file == nil {
+			fn("log:"+name, "") // segment creation: the file is not attached to a segment yet
+			return
+		}
+		fn("log:"+name, filepath.Dir(s.file.Name()))
+	}
 }
